@@ -488,6 +488,20 @@ def loss_markers(prog: Program) -> RuleResult:
             res.fail(construct, "; ".join(problems), mod, arm)
         else:
             res.ok(construct, f"{len(observed)} child(ren), D{next(iter(want.values())):+d} markers each" if want else "none")
+    # no other source of loss markers: every call of _add_losses in the layout code is one of the calls counted above
+    counted = {id(c) for _k, body, _a in arms for s_ in body for c in calls_in(s_) if dotted(c.func) == "_add_losses"}
+    construct = f"{LAYOUT}:<module>/no-other-loss-source"
+    stray = []
+    for qual2, fn2 in prog.defs(LAYOUT).items():
+        if not isinstance(fn2, FuncNode):
+            continue
+        for c in calls_in(fn2, nested=False):
+            if dotted(c.func) == "_add_losses" and id(c) not in counted:
+                stray.append((qual2, c))
+    if stray:
+        res.fail(construct, f"`{short(stray[0][1], 70)}` in {stray[0][0]} inserts loss nodes outside the handling of an event: the evaluator counts full losses only on the child branches of speciations, duplications and transfers (nothing above the root of the object tree)", mod, stray[0][1])
+    else:
+        res.ok(construct, f"{len(counted)} call(s) of _add_losses, all inside the event handlers")
     # _add_losses itself (one virtual node per species strictly between start and end, whatever the loop form) is
     # decided by LOSS-WALK over the relational model; the table above relies on it.
     from ..rules import extra as _extra
